@@ -749,16 +749,61 @@ def run_lim(res, ast, with_jit=True):
         res.check(okl, "LIM-BACKEDGE", f"{OPS}|limit|paths", where(OPS, lf, "limit"),
                   "limit op: `if budget <= cost { budget = 0; spill r0, r1, mem; ip.add(2) } else { budget -= cost; noop(.., ip.add(2), ..) }` - the exhausted "
                   "path must return to the trampoline (not continue), the funded path must charge and continue")
-        # trampoline
+        # trampoline: evaluated on scripted scenarios (is the instruction pointer null?, is the budget exhausted?)
+        import trace as tr
         ef = ast.fn(BCMOD, "execute_in", contains="BcInterpreter")["node"]
         eps = [p_["pat"]["name"] for p_ in ef["sig"]["inputs"] if p_["t"] == "Arg"]
-        okt = False
-        for lp in walk_t(ef["body"], "While"):
-            if pm.match_expr(lp, "while !__v_ip.is_null() { unsafe { if __v_limited && (*__v_oc).context.budget == 0 { __v_fin = false; break; } __v_ip = enter_ops(__v_oc, __v_ip); } }",
-                             {"__v_limited": eps[1]} if len(eps) == 3 else {}):
-                okt = True
-        res.check(okt, "LIM-BACKEDGE", f"{BCMOD}|execute_in|trampoline", where(BCMOD, ef, "execute_in"),
-                  "the trampoline must be `while !ip.is_null() { if limited && budget == 0 { finished = false; break } ip = enter_ops(..) }`")
+
+        class Tramp(tr.TraceInterp):
+            def __init__(self, nulls, zeros, **kw):
+                super().__init__(ast, BCMOD, **kw)
+                self.nulls, self.zeros, self.enters = list(nulls), list(zeros), 0
+                self.fns = {}       # nothing is followed: build_context / free_context / code generation are opaque here
+
+            def method(self, recv, name, targs, args, node):
+                if name == "is_null":
+                    if not self.nulls:
+                        raise tr.Unanalysable("more null tests than the scenario scripts")
+                    return self.nulls.pop(0)
+                return super().method(recv, name, targs, args, node)
+
+            def call(self, name, targs, args, node):
+                if tr.norm_name(name).split("::")[-1] == "enter_ops":
+                    self.enters += 1
+                return super().call(name, targs, args, node)
+
+            def binary(self, op, l, r, node):
+                if op in ("==", "!=", ">", "<=") and isinstance(l, tr.Sym) and l.label == "f:budget" and r == 0:
+                    if not self.zeros:
+                        raise tr.Unanalysable("more budget tests than the scenario scripts")
+                    z = self.zeros.pop(0)
+                    return {"==": z, "!=": not z, ">": not z, "<=": z}[op]
+                return super().binary(op, l, r, node)
+
+        scen = (("ip null at once", [True], [], True, True, 0), ("ip null at once (unlimited)", [True], [], False, True, 0),
+                ("budget exhausted on entry", [False], [True], True, False, 0),
+                ("one step then done", [False, True], [False], True, True, 1), ("one step then done (unlimited)", [False, True], [], False, True, 1),
+                ("one step then exhausted", [False, False], [False, True], True, False, 1),
+                ("unlimited ignores an empty budget", [False, True], [], False, True, 1))
+        bad = []
+        for what, nulls, zeros, lim, want, enters in scen:
+            it = Tramp(nulls, zeros)
+            env = tr.Env()
+            env.bind("self", tr.Sym("self"))
+            if len(eps) == 3:
+                env.bind(eps[0], tr.Sym("param:cxt")); env.bind(eps[1], lim); env.bind(eps[2], tr.Sym("param:safe"))
+            try:
+                try:
+                    ret = it.exec_block(ef["body"], env)
+                except tr.ReturnEx as r_:
+                    ret = r_.value
+                if ret is not want or it.enters != enters:
+                    bad.append(f"{what}: returns {ret!r} after {it.enters} enter_ops call(s), expected {want} after {enters}")
+            except (tr.Unanalysable, tr.Reached, BreakEx, ContinueEx, KeyError, TypeError) as u_:
+                bad.append(f"{what}: cannot be analysed (fail closed): {u_}")
+        res.check(not bad and len(eps) == 3, "LIM-BACKEDGE", f"{BCMOD}|execute_in|trampoline", where(BCMOD, ef, "execute_in"),
+                  "the trampoline must stop with 'not finished' exactly when limited and the budget is zero before entering the ops, and run to the null "
+                  "instruction pointer otherwise: " + "; ".join(bad[:3]))
     except (Missing, IndexError, KeyError, TooComplex) as m:
         res.missing("LIM-BACKEDGE", Missing(str(m)))
     # ---- LIM-CHARGE
